@@ -429,7 +429,12 @@ def check_transient_wiring(rep):
     if not ok_kw:
         rep.fail("broken-tie", "SEVM.run_message no longer starts a transaction with fresh_transient_storage(pre_ex)", case={"where": "sevm.py run_message"})
     # behaviour: after TSTOREs, fresh_transient_storage gives empty storages and a TLOAD there returns 0
-    bad = impl_transient_fresh()
+    try:
+        bad = impl_transient_fresh()
+    except Exception as e:  # noqa: BLE001  the storage machinery itself raised on a plain TSTORE/TLOAD
+        rep.obligation("fresh_transient_storage behaviour probe ran", False, f"{type(e).__name__}: {e}"[:300])
+        rep.fail("broken-tie", f"TSTORE/TLOAD probe on the real SEVM raised {type(e).__name__}: {str(e)[:200]}", case={"probe": "transient"})
+        return
     rep.obligation("fresh_transient_storage returns empty storages for every account (behaviour; source shape %s)" % ("as modelled" if ok_body else "CHANGED"), not bad, bad or "")
     if bad:
         rep.fail("failing-input", "transient storage is not empty at the start of a transaction: " + bad,
